@@ -8,6 +8,7 @@
 import ProphyModel.Cpp
 import ProphyModel.Lemmas.CppEncode
 import ProphyModel.Lemmas.NoShift
+import ProphyModel.Lemmas.CppEncodeBounds
 namespace Prophy.C05
 open Prophy Prophy.Cpp
 
@@ -73,5 +74,35 @@ theorem C05_byte_size_is_canonical_length (t : Ty) (v : Val) (e : Endian)
   have h := Cpp.encodeVec_canonical t v e hf hp hm hns' hv ha hlen
   refine ⟨Cpp.getByteSize_spec t v e hf hp hm hns' hv ha hlen, h, ?_⟩
   rw [h]; intro c; cases c
+
+/-- the quantifier of C05 is "every C++ object": `objOk` is `hasType` WITHOUT the limits of limited
+    arrays, the counters' ranges and enumerator membership (a std::vector can be over-full, an enum
+    can hold any integer).  For every such object the vector encoder never writes outside its
+    `get_byte_size()` bytes and returns exactly that many -/
+theorem C05_every_object_in_bounds (t : Ty) (v : Val) (e : Endian)
+    (hf : Accept.front t = true) (hns : Accept.noShift t = true) (hm : Cpp.optMisaligned t = false)
+    (ho : Cpp.objOk t v = true) (hlen : Cpp.byteSizeTy t v < 2 ^ 64) :
+    encodeVec t v e ≠ .fault ∧ ∃ b, encodeVec t v e = .ok b ∧ b.length = getByteSize t v :=
+  Cpp.encodeVec_in_bounds t v e hf hns hm ho hlen
+
+/-- the pointer encoder never advances past `get_byte_size()`, and advances exactly that far when
+    no array exceeds what its counter's type can represent (`countsFit`) ... -/
+theorem C05_pointer_encoder (t : Ty) (v : Val) (e : Endian)
+    (hf : Accept.front t = true) (hns : Accept.noShift t = true) (hm : Cpp.optMisaligned t = false)
+    (ho : Cpp.objOk t v = true) (hlen : Cpp.byteSizeTy t v < 2 ^ 64) :
+    (encodePtr t v e).length ≤ getByteSize t v ∧
+      (Cpp.countsFit t v = true → (encodePtr t v e).length = getByteSize t v) :=
+  ⟨Cpp.encodePtr_le_getByteSize t v e hf hns hm ho hlen, fun hc => Cpp.encodePtr_length t v e hf hns hm ho hc hlen⟩
+
+/-- ... and NOT otherwise (known finding D51, replayed on the real code): 256 elements under a u8
+    counter give get_byte_size() = 257 while encode writes 1 byte -/
+theorem C05_counter_wrap_breaks_size :
+    ¬ (∀ (t : Ty) (v : Val) (e : Endian), Accept.front t = true → Accept.noShift t = true →
+        Cpp.optMisaligned t = false → Cpp.objOk t v = true → Cpp.byteSizeTy t v < 2 ^ 64 →
+        (encodePtr t v e).length = getByteSize t v) := Cpp.Bounds.encodePtr_length_unrestricted_false
+
+/-- every well-typed value is such an object whose counters fit -/
+theorem C05_typed_is_object (t : Ty) (v : Val) (hw : WF.wfTy t = true) (hv : hasType t v = true) :
+    Cpp.objOk t v = true ∧ Cpp.countsFit t v = true := Cpp.objOk_of_hasType t v hw hv
 
 end Prophy.C05
